@@ -5,6 +5,7 @@ use crate::reclog::*;
 use crate::{vensure, vfail};
 use metrique::unit_of_work::metrics;
 use metrique::{FlushGuard, ForceFlushGuard, RootEntry};
+use metrique::{OnParentDrop, Slot, SlotGuard};
 use metrique_writer_core::sink::FlushWait;
 use metrique_writer_core::{Entry, EntrySink};
 use proptest::prelude::*;
@@ -99,6 +100,22 @@ pub enum Op {
     /// release the owner through `Instrumented::from_parts((), owner).emit()` - for the keep-alive
     /// protocol the same as dropping it
     EmitOwner,
+    /// a flush guard of the entry handed (`delay_flush`) to a SlotGuard whose own Slot is already
+    /// gone: the SlotGuard is a plain holder of the guard, the entry waits for it like for any
+    /// other flush guard
+    NewFlushGuardInDetachedSlotGuard,
+}
+
+/// what keeps a flush guard alive
+pub enum Holder {
+    Plain(FlushGuard),
+    InSlotGuard(SlotGuard<HolderChild>),
+}
+
+#[metrics(subfield)]
+#[derive(Default)]
+pub struct HolderChild {
+    x: u64,
 }
 
 /// reference model of the keep-alive protocol
@@ -126,7 +143,7 @@ impl Model {
     }
     pub fn enabled(&self, op: Op) -> bool {
         match op {
-            Op::NewFlushGuard | Op::NewForceGuard | Op::Mutate(_) | Op::IntoHandle | Op::DropOwner | Op::EmitOwner => self.owner_alive,
+            Op::NewFlushGuard | Op::NewFlushGuardInDetachedSlotGuard | Op::NewForceGuard | Op::Mutate(_) | Op::IntoHandle | Op::DropOwner | Op::EmitOwner => self.owner_alive,
             Op::DropFlushGuard(i) => (i as usize) < self.flush_guards.len(),
             Op::DropForceGuard(i) => (i as usize) < self.force_guards,
             Op::CloneHandle => self.handles > 0,
@@ -136,7 +153,7 @@ impl Model {
     }
     pub fn apply(&mut self, op: Op) {
         match op {
-            Op::NewFlushGuard => self.flush_guards.push(!self.force_dropped),
+            Op::NewFlushGuard | Op::NewFlushGuardInDetachedSlotGuard => self.flush_guards.push(!self.force_dropped),
             Op::NewForceGuard => self.force_guards += 1,
             Op::DropFlushGuard(i) => {
                 self.flush_guards.remove(i as usize);
@@ -165,7 +182,7 @@ pub struct Real {
     pub sink: CountSink,
     pub owner: Option<UowGuard<CountSink>>,
     pub handles: Vec<UowHandle<CountSink>>,
-    pub flush_guards: Vec<FlushGuard>,
+    pub flush_guards: Vec<Holder>,
     pub force_guards: Vec<ForceFlushGuard>,
 }
 impl Real {
@@ -182,7 +199,14 @@ impl Real {
     }
     pub fn apply(&mut self, op: Op) {
         match op {
-            Op::NewFlushGuard => self.flush_guards.push(self.owner.as_ref().unwrap().flush_guard()),
+            Op::NewFlushGuard => self.flush_guards.push(Holder::Plain(self.owner.as_ref().unwrap().flush_guard())),
+            Op::NewFlushGuardInDetachedSlotGuard => {
+                let mut slot: Slot<HolderChild> = Slot::default();
+                let mut g = slot.open(OnParentDrop::Discard).expect("fresh slot opens");
+                drop(slot); // the receiving side is gone: the guard is detached
+                g.delay_flush(self.owner.as_ref().unwrap().flush_guard());
+                self.flush_guards.push(Holder::InSlotGuard(g));
+            }
             Op::NewForceGuard => self.force_guards.push(self.owner.as_ref().unwrap().force_flush_guard()),
             Op::DropFlushGuard(i) => drop(self.flush_guards.remove(i as usize)),
             Op::DropForceGuard(i) => drop(self.force_guards.remove(i as usize)),
@@ -220,7 +244,8 @@ pub fn run_sequence(ops: &[Op]) -> Result<(Model, Real, Classes), Fail> {
         // classification of interesting situations
         match op {
             Op::DropForceGuard(_) if m.flush_guards.iter().any(|h| *h) => classes.push("force-drop-while-flush-guards-alive"),
-            Op::NewFlushGuard if m.force_dropped => classes.push("guard-created-after-force-drop"),
+            Op::NewFlushGuard | Op::NewFlushGuardInDetachedSlotGuard if m.force_dropped => classes.push("guard-created-after-force-drop"),
+            Op::NewFlushGuardInDetachedSlotGuard => classes.push("flush-guard-held-by-a-detached-slot-guard"),
             Op::DropOwner | Op::IntoHandle | Op::EmitOwner if !m.flush_guards.is_empty() => classes.push("guard-outlives-owner"),
             Op::AddViaHandle(..) => classes.push("mutation-through-handle-after-owner-gone"),
             _ => {}
@@ -283,7 +308,7 @@ pub fn check_seq(case: &SeqCase) -> CaseResult {
     enum Obj {
         Owner(UowGuard<CountSink>),
         Handle(UowHandle<CountSink>),
-        Flush(FlushGuard, bool),
+        Flush(Holder, bool),
         Force(ForceFlushGuard),
     }
     // ForceFlushGuard is !Unpin but Send; all are Send
@@ -536,6 +561,7 @@ fn exhaustive(ctx: &mut Ctx) {
 pub fn arb_op() -> impl Strategy<Value = Op> {
     prop_oneof![
         3 => Just(Op::NewFlushGuard),
+        1 => Just(Op::NewFlushGuardInDetachedSlotGuard),
         2 => Just(Op::NewForceGuard),
         3 => (0u8..4).prop_map(Op::DropFlushGuard),
         1 => (0u8..3).prop_map(Op::DropForceGuard),
@@ -564,7 +590,7 @@ pub fn run(ctx: &mut Ctx) {
             if q { 30_000 } else { 1_000_000 },
         )
         .threads(ctx.tier.pick(8, 16))
-        .mandatory(&["force-drop-while-flush-guards-alive", "guard-created-after-force-drop", "guard-outlives-owner", "final-drops-while-unwinding", "mutation-through-handle-after-owner-gone"]),
+        .mandatory(&["force-drop-while-flush-guards-alive", "guard-created-after-force-drop", "guard-outlives-owner", "final-drops-while-unwinding", "mutation-through-handle-after-owner-gone", "flush-guard-held-by-a-detached-slot-guard"]),
         || {
             (prop::collection::vec(arb_op(), 0..60), prop::collection::vec(any::<u8>(), 0..12), prop::bool::weighted(0.2)).prop_map(|(ops, order, unwinding)| SeqCase {
                 ops,
